@@ -20,7 +20,11 @@ the executor's skip decision (`P/Skip.lean`, tied by `harness/skipcorr.py`):
   changed file (or a step whose environment / glob matches changed) are marked, **every** node
   reachable through recorded dependency edges, attached or detached, is invalidated: no step on
   the way is SUCCEEDED and no file on the way is BUILT.  Stored step hashes are kept (the step is
-  re-checked, not trusted).
+  re-checked, not trusted).  `external_update_complete` is the end-to-end form for one request:
+  `update_file_hashes({p: h}, EXTERNAL)` (startup rescan, watcher; changed or vanished file; static
+  input or output), using the regenerated `_HASH_TRANSITIONS` table, leaves a sound database with
+  everything downstream of `p` invalidated; `rescanEnv_propagation_complete` is the same for
+  `rescan_env_vars`.
 * **skip_sound**: `try_skip_job` records SUCCEEDED without running only if the recomputed input
   digest and the recomputed output digest both equal the stored ones; every other outcome resets
   the step (hash deleted) or fails it.
@@ -36,7 +40,8 @@ the executor's skip decision (`P/Skip.lean`, tied by `harness/skipcorr.py`):
   `env_var`) is kept as a `def`; the kernel correspondence compares the rows after every request.
 
 Not proved (oracle only): `closed_unique`, `successful_build_closed` (DESIGN T1/T2), the
-propagation of whole `update_file_hashes` batches beyond the single-file case shown here, and
+propagation of `update_file_hashes` batches of several files (one file per request is proved;
+the watcher and the rescan issue one request per file), and
 `process_nglob_changes` (not part of the kernel model; its effect is `mark_step_pending`).
 -/
 namespace StepupModel.Props.C01
@@ -53,15 +58,12 @@ inductive Downstream (deps : List Dep) (x0 : Key) : Key → Prop
 def DepKinds (s : KState) : Prop :=
   ∀ d ∈ s.deps, (d.src.kind = .file ∧ d.snk.kind = .step) ∨ (d.src.kind = .step ∧ d.snk.kind = .file)
 
-/-- No SUCCEEDED step has an input that is not BUILT or CONFIRMED. -/
-def NoStale (s : KState) : Prop := ∀ d, ¬ StaleDep s d
-
 /-- Every BUILT file with a producing step has that step SUCCEEDED (or RUNNING / CHECKING). -/
 def NoOrphanBuilt (s : KState) : Prop := ∀ d, ¬ OrphanBuilt s d
 
-/-- A file with a producing step is not in the static state CONFIRMED. -/
+/-- A file with a producing step is not in a static state (UNCONFIRMED, MISSING, CONFIRMED). -/
 def OutputsNotStatic (s : KState) : Prop :=
-  ∀ d ∈ s.deps, d.src.kind = .step → s.fstateOf d.snk ≠ some .confirmed
+  ∀ d ∈ s.deps, d.src.kind = .step → ∀ st, s.fstateOf d.snk = some st → st.role? ≠ some .static
 
 /-- What "invalidated" means for a node downstream of a change: a step is not SUCCEEDED, a file
 is neither BUILT nor CONFIRMED (it is OUTDATED, PLANNED, ...: nothing a consumer may use). -/
@@ -69,13 +71,19 @@ def Invalidated (s : KState) (x : Key) : Prop :=
   (x.kind = .step → s.sstateOf x ≠ some .succeeded) ∧
   (x.kind = .file → s.fstateOf x ≠ some .built ∧ s.fstateOf x ≠ some .confirmed)
 
-/-- The database invariants the propagation relies on and maintains. -/
-structure Sound (s : KState) : Prop where
+/-- The database invariants the propagation relies on and maintains; `E` says which stale
+dependencies (a SUCCEEDED step with an input that is not BUILT/CONFIRMED) are tolerated for
+the moment: none in a committed state, those of the file being updated in the middle of
+`update_file_hashes`. -/
+structure SoundBut (E : Dep → Prop) (s : KState) : Prop where
   quiet : NoneBusy s
   kinds : DepKinds s
-  noStale : NoStale s
+  stale : ∀ d, StaleDep s d → E d
   noOrphan : NoOrphanBuilt s
   outputs : OutputsNotStatic s
+
+/-- No stale dependency at all. -/
+abbrev Sound (s : KState) : Prop := SoundBut (fun _ => False) s
 
 /-- `mark_step_pending(k)`: afterwards `k` is PENDING, unless it is RUNNING or CHECKING (the call
 is then ignored; such a step notices the change itself when it completes). -/
@@ -115,31 +123,30 @@ theorem propagation_keeps_step_hashes (s s' : KState) (k q : Key) (h : s.markSte
     s'.shashOf q = s.shashOf q :=
   markStepPending_inv (propInv_shash q (s.shashOf q)) s.fuel s s' k rfl h
 
-/-- `Sound` is preserved by every run of the propagation routines. -/
-theorem sound_preserved {f : KState → M KState}
+/-- `SoundBut E` is preserved by every run of the propagation routines. -/
+theorem soundBut_preserved {E : Dep → Prop} {f : KState → M KState}
     (hinv : ∀ (Q : KState → Prop), PropInv Q → ∀ s s', Q s → f s = .ok s' → Q s')
     (hstale : ∀ s s', f s = .ok s' → ∀ d, StaleDep s' d → StaleDep s d)
     (horph : ∀ s s', f s = .ok s' → ∀ d, OrphanBuilt s' d → OrphanBuilt s d)
-    (s s' : KState) (hs : Sound s) (h : f s = .ok s') : Sound s' := by
+    (s s' : KState) (hs : SoundBut E s) (h : f s = .ok s') : SoundBut E s' := by
   have hdeps : s'.deps = s.deps := hinv _ (propInv_deps s.deps) s s' rfl h
   refine ⟨hinv _ propInv_noneBusy s s' hs.quiet h, ?_, ?_, ?_, ?_⟩
   · intro d hd; exact hs.kinds d (hdeps ▸ hd)
-  · intro d hd; exact hs.noStale d (hstale s s' h d hd)
+  · intro d hd; exact hs.stale d (hstale s s' h d hd)
   · intro d hd; exact hs.noOrphan d (horph s s' h d hd)
   · intro d hd hk
-    have h0 := hs.outputs d (hdeps ▸ hd) hk
-    exact hinv _ (propInv_notState d.snk .confirmed (by simp)) s s' h0 h
+    exact hinv _ (propInv_notStaticRole d.snk) s s' (hs.outputs d (hdeps ▸ hd) hk) h
 
-theorem sound_markStepPending (s s' : KState) (k : Key) (hs : Sound s) (h : s.markStepPending k = .ok s') :
-    Sound s' :=
-  sound_preserved (f := fun s => s.markStepPending k)
+theorem soundBut_markStepPending {E : Dep → Prop} (s s' : KState) (k : Key) (hs : SoundBut E s)
+    (h : s.markStepPending k = .ok s') : SoundBut E s' :=
+  soundBut_preserved (f := fun s => s.markStepPending k)
     (fun _ hQ s s' hq h => markStepPending_inv hQ s.fuel s s' k hq h)
     (fun s s' h => markStepPending_stale_mono s.fuel s s' k h)
     (fun s s' h => markStepPending_orphan_mono s.fuel s s' k h) s s' hs h
 
-theorem sound_markConsumersPending (s s' : KState) (f : Key) (hs : Sound s)
-    (h : s.markConsumersPending f = .ok s') : Sound s' :=
-  sound_preserved (f := fun s => s.markConsumersPending f)
+theorem soundBut_markConsumersPending {E : Dep → Prop} (s s' : KState) (f : Key) (hs : SoundBut E s)
+    (h : s.markConsumersPending f = .ok s') : SoundBut E s' :=
+  soundBut_preserved (f := fun s => s.markConsumersPending f)
     (fun _ hQ s s' hq h => markConsumersPending_inv hQ s s' f hq h)
     (fun s s' h => markConsumersPending_stale_mono s s' f h)
     (fun s s' h => markConsumersPending_orphan_mono s s' f h) s s' hs h
@@ -149,65 +156,233 @@ reachable from `x0`. -/
 theorem downstream_invalidated (s : KState) (x0 : Key) (hs : Sound s)
     (hbase : ∀ d ∈ s.deps, d.src = x0 → Invalidated s d.snk) :
     ∀ x, Downstream s.deps x0 x → Invalidated s x := by
+  have hnc : ∀ d ∈ s.deps, d.src.kind = .step → s.fstateOf d.snk ≠ some .confirmed := by
+    intro d hd hk hc
+    exact hs.outputs d hd hk _ hc rfl
   intro x hx
   induction hx with
   | direct d hd hsrc => exact hbase d hd hsrc
   | next d hd _ ih =>
     rcases hs.kinds d hd with ⟨hsf, hst⟩ | ⟨hss, hsf⟩
     · refine ⟨fun _ hsucc => ?_, fun hf => (by rw [hst] at hf; cases hf)⟩
-      obtain ⟨hnb, hnc⟩ := ih.2 hsf
-      exact hs.noStale d ⟨hd, hst, hsucc, fun hav => hav.elim hnb hnc⟩
-    · refine ⟨fun hk => (by rw [hsf] at hk; cases hk), fun _ => ⟨fun hb => ?_, hs.outputs d hd hss⟩⟩
+      obtain ⟨hnb, hnc'⟩ := ih.2 hsf
+      exact hs.stale d ⟨hd, hst, hsucc, fun hav => hav.elim hnb hnc'⟩
+    · refine ⟨fun hk => (by rw [hsf] at hk; cases hk), fun _ => ⟨fun hb => ?_, hnc d hd hss⟩⟩
       have hns := ih.1 hss
       refine hs.noOrphan d ⟨hd, hsf, hb, hns, ?_, ?_⟩
       · intro hr; exact (hs.quiet _ _ hr).1 rfl
       · intro hc; exact (hs.quiet _ _ hc).2 rfl
 
-/-- **propagation_complete** (changed static file).  From a sound database in which no step is
-RUNNING or CHECKING: after the consumers of the file `f0` have been marked
-(`handle_updated_file` of a CONFIRMED file, `handle_deleted_file`, a completed confirmation), every
-node downstream of `f0` along recorded dependency edges (through attached and detached nodes
-alike) is invalidated: no such step is SUCCEEDED and no such file is BUILT. -/
-theorem propagation_complete (s s' : KState) (f0 : Key) (hf0 : f0.kind = .file) (hs : Sound s)
-    (h : s.markConsumersPending f0 = .ok s') :
-    ∀ x, Downstream s.deps f0 x → Invalidated s' x := by
-  have hs' := sound_markConsumersPending s s' f0 hs h
+/-- The direct successors of a step that is not SUCCEEDED, in a sound state. -/
+theorem step_base (s : KState) (k : Key) (hk : k.kind = .step) (hs : Sound s)
+    (hns : s.sstateOf k ≠ some .succeeded) : ∀ d ∈ s.deps, d.src = k → Invalidated s d.snk := by
+  intro d hd hsrc
+  rcases hs.kinds d hd with ⟨hsf, _⟩ | ⟨_, hsf⟩
+  · rw [hsrc, hk] at hsf; cases hsf
+  · refine ⟨fun hx => (by rw [hsf] at hx; cases hx), fun _ => ⟨fun hb => ?_, fun hc => ?_⟩⟩
+    · refine hs.noOrphan d ⟨hd, hsf, hb, hsrc ▸ hns, ?_, ?_⟩
+      · intro hr; exact (hs.quiet _ _ hr).1 rfl
+      · intro hc; exact (hs.quiet _ _ hc).2 rfl
+    · exact hs.outputs d hd (hsrc ▸ hk) _ hc rfl
+
+/-- The common end of every hash-update action: the consumers of `f0` are marked in a state
+whose only tolerated stale dependencies are those of `f0` itself.  Afterwards the database is
+sound again and everything downstream of `f0` is invalidated. -/
+theorem consumers_marked_complete (s s' : KState) (f0 : Key) (hf0 : f0.kind = .file)
+    (hs : SoundBut (fun d => d.src = f0) s) (h : s.markConsumersPending f0 = .ok s') :
+    Sound s' ∧ ∀ x, Downstream s.deps f0 x → Invalidated s' x := by
   have hdeps := markConsumersPending_deps s s' f0 h
+  have hnd := markConsumersPending_notDone s s' f0 h
+  have hs1 := soundBut_markConsumersPending s s' f0 hs h
+  have hs' : Sound s' := by
+    refine ⟨hs1.quiet, hs1.kinds, ?_, hs1.noOrphan, hs1.outputs⟩
+    intro d hd
+    have hsrc : d.src = f0 := hs1.stale d hd
+    obtain ⟨hmem, hkind, hsucc, _⟩ := hd
+    have hmem0 : d ∈ s.deps := hdeps ▸ hmem
+    have := hnd d.snk (hsrc ▸ mem_sinksOf s d hmem0) hkind _ hsucc
+    rcases this with h1 | h1 | h1 <;> cases h1
+  refine ⟨hs', ?_⟩
   rw [← hdeps]
   refine downstream_invalidated s' f0 hs' ?_
   intro d hd hsrc
   have hd0 : d ∈ s.deps := hdeps ▸ hd
   rcases hs.kinds d hd0 with ⟨_, hst⟩ | ⟨hss, _⟩
   · refine ⟨fun _ hsucc => ?_, fun hf => (by rw [hst] at hf; cases hf)⟩
-    have := markConsumersPending_notDone s s' f0 h d.snk (hsrc ▸ mem_sinksOf s d hd0) hst _ hsucc
+    have := hnd d.snk (hsrc ▸ mem_sinksOf s d hd0) hst _ hsucc
     rcases this with h1 | h1 | h1 <;> cases h1
   · rw [hsrc, hf0] at hss; cases hss
+
+/-- **propagation_complete** (changed static file).  From a sound database in which no step is
+RUNNING or CHECKING: after the consumers of the file `f0` have been marked, every node
+downstream of `f0` along recorded dependency edges (through attached and detached nodes alike)
+is invalidated: no such step is SUCCEEDED and no such file is BUILT. -/
+theorem propagation_complete (s s' : KState) (f0 : Key) (hf0 : f0.kind = .file) (hs : Sound s)
+    (h : s.markConsumersPending f0 = .ok s') :
+    Sound s' ∧ ∀ x, Downstream s.deps f0 x → Invalidated s' x :=
+  consumers_marked_complete s s' f0 hf0
+    ⟨hs.quiet, hs.kinds, fun d hd => (hs.stale d hd).elim, hs.noOrphan, hs.outputs⟩ h
+
+theorem soundBut_pendCreator {E : Dep → Prop} (s s' : KState) (f : Key) (hs : SoundBut E s)
+    (h : s.pendCreator f = .ok s') : SoundBut E s' ∧ s'.deps = s.deps := by
+  unfold KState.pendCreator at h
+  split at h
+  · rename_i c _
+    exact ⟨soundBut_markStepPending s s' c hs h, markStepPending_deps s.fuel s s' c h⟩
+  · simp only [pure, Except.pure, Except.ok.injEq] at h
+    subst h; exact ⟨hs, rfl⟩
+
+/-- `handle_updated_file` on a file that is CONFIRMED, PLANNED or OUTDATED after the update. -/
+theorem handleUpdated_complete (s s' : KState) (f0 : Key) (hf0 : f0.kind = .file)
+    (hs : SoundBut (fun d => d.src = f0) s)
+    (hst : s.fstateOf f0 = some .confirmed ∨ s.fstateOf f0 = some .planned ∨ s.fstateOf f0 = some .outdated)
+    (h : s.handleUpdated f0 = .ok s') :
+    Sound s' ∧ ∀ x, Downstream s.deps f0 x → Invalidated s' x := by
+  unfold KState.handleUpdated KState.fileState? at h
+  unfold KState.fstateOf at hst
+  by_cases hc : (s.find? f0).map (·.fstate) = some .confirmed
+  · simp only [hc, if_true] at h
+    exact consumers_marked_complete s s' f0 hf0 hs h
+  · have hpo : (s.find? f0).map (·.fstate) = some .planned ∨ (s.find? f0).map (·.fstate) = some .outdated := by
+      rcases hst with h1 | h1 | h1
+      · exact absurd h1 hc
+      · exact Or.inl h1
+      · exact Or.inr h1
+    simp only [hc, if_false, hpo, if_true, bind, Except.bind] at h
+    cases hp : s.pendCreator f0 with
+    | error e => simp [hp] at h
+    | ok s1 =>
+      simp only [hp] at h
+      obtain ⟨hs1, hdeps1⟩ := soundBut_pendCreator s s1 f0 hs hp
+      have := consumers_marked_complete s1 s' f0 hf0 hs1 h
+      rw [hdeps1] at this
+      exact this
+
+/-- `handle_deleted_file`. -/
+theorem handleDeleted_complete (s s' : KState) (f0 : Key) (hf0 : f0.kind = .file)
+    (hs : SoundBut (fun d => d.src = f0) s) (h : s.handleDeleted f0 = .ok s') :
+    Sound s' ∧ ∀ x, Downstream s.deps f0 x → Invalidated s' x := by
+  unfold KState.handleDeleted at h
+  by_cases hp : s.fileState? f0 = some .planned
+  · simp only [hp, if_true, bind, Except.bind] at h
+    cases hc : s.pendCreator f0 with
+    | error e => simp [hc] at h
+    | ok s1 =>
+      simp only [hc] at h
+      obtain ⟨hs1, hdeps1⟩ := soundBut_pendCreator s s1 f0 hs hc
+      have := consumers_marked_complete s1 s' f0 hf0 hs1 h
+      rw [hdeps1] at this
+      exact this
+  · simp only [hp, if_false, bind, Except.bind, pure, Except.pure] at h
+    exact consumers_marked_complete s s' f0 hf0 hs h
+
+/-- **propagation_complete, end to end for one file**: `update_file_hashes({p: h}, EXTERNAL)` (what
+the startup rescan and the watcher apply for a file whose hash changed or that vanished), from a
+sound database with no step RUNNING or CHECKING: the request leaves a sound database in which
+every node downstream of `p`, attached or detached, is invalidated. -/
+theorem external_update_complete (s s' : KState) (p : String) (hh : Option Nat) (hs : Sound s)
+    (h : s.updateFileHashes [(p, hh)] .external = .ok s') :
+    Sound s' ∧ ∀ x, Downstream s.deps (fileKey p) x → Invalidated s' x := by
+  rw [updateFileHashes_single] at h
+  simp only [bind, Except.bind] at h
+  cases hr : s.hashRec .external (p, hh) with
+  | error e => simp [hr] at h
+  | ok r =>
+    simp only [hr] at h
+    -- the transition
+    unfold KState.hashRec at hr
+    cases hf : s.find? (fileKey p) with
+    | none => simp [hf, throw, throwThe, MonadExceptOf.throw] at hr
+    | some n =>
+      simp only [hf] at hr
+      cases hl : lookupTransition .external n.fstate hh.isSome with
+      | none => simp [hl, throw, throwThe, MonadExceptOf.throw] at hr
+      | some na =>
+        obtain ⟨new, act⟩ := na
+        simp only [hl, pure, Except.pure, Except.ok.injEq] at hr
+        subst hr
+        obtain ⟨hnew, hact, hrole⟩ := external_transition_facts n.fstate new hh.isSome act hl
+        simp only at h
+        cases hw : s.writeFile (fileKey p) new (some hh) with
+        | error e => simp [hw] at h
+        | ok s1 =>
+          simp only [hw] at h
+          obtain ⟨hfs, hss, hdeps⟩ := writeFile_effect s s1 (fileKey p) new (some hh) hw
+          have hfnew : s1.fstateOf (fileKey p) = some new := by
+            rw [hfs]; simp [KState.fstateOf, hf]
+          have hnb : new ≠ .built := by rcases hnew with rfl | rfl | rfl <;> simp
+          -- the state after the write is sound but for the consumers of `p`
+          have hs1 : SoundBut (fun d => d.src = fileKey p) s1 := by
+            refine ⟨?_, ?_, ?_, ?_, ?_⟩
+            · intro q st hq; rw [hss] at hq; exact hs.quiet q st hq
+            · intro d hd; exact hs.kinds d (hdeps ▸ hd)
+            · intro d ⟨hmem, hkind, hsucc, hav⟩
+              apply Classical.byContradiction
+              intro hne
+              refine hs.stale d ⟨hdeps ▸ hmem, hkind, by rw [← hss]; exact hsucc, ?_⟩
+              rw [hfs d.src] at hav
+              simpa [hne] using hav
+            · intro d ⟨hmem, hkind, hb, h1, h2, h3⟩
+              have hne : d.snk ≠ fileKey p := by
+                intro he; rw [he, hfnew] at hb; exact hnb (Option.some.inj hb)
+              refine hs.noOrphan d ⟨hdeps ▸ hmem, hkind, ?_, by rw [← hss]; exact h1, by rw [← hss]; exact h2,
+                by rw [← hss]; exact h3⟩
+              rw [hfs d.snk] at hb
+              simpa [hne] using hb
+            · intro d hd hk st hst
+              by_cases he : d.snk = fileKey p
+              · rw [he, hfnew] at hst
+                have := hs.outputs d (hdeps ▸ hd) hk n.fstate (by rw [he]; simp [KState.fstateOf, hf])
+                rw [← Option.some.inj hst, hrole]; exact this
+              · rw [hfs d.snk] at hst
+                simp only [he, if_false] at hst
+                exact hs.outputs d (hdeps ▸ hd) hk st hst
+          have hkf : (fileKey p).kind = .file := rfl
+          rw [← hdeps]
+          rcases hact with rfl | rfl
+          · -- updated
+            simp only [if_true, pure, Except.pure] at h
+            cases hu : s1.handleUpdated (fileKey p) with
+            | error e => simp [hu] at h
+            | ok s2 =>
+              simp only [hu, Option.some.injEq, reduceCtorEq, if_false, Except.ok.injEq] at h
+              subst h
+              refine handleUpdated_complete s1 s2 (fileKey p) hkf hs1 ?_ hu
+              rw [hfnew]
+              -- an update with a known hash leads to CONFIRMED or PLANNED
+              rcases hnew with rfl | rfl | rfl
+              · exfalso
+                unfold lookupTransition at hl
+                cases hst : n.fstate <;> cases hk : hh.isSome <;>
+                  simp [hst, hk, Generated.hashTransitions, List.find?] at hl
+              · exact Or.inl rfl
+              · exact Or.inr (Or.inl rfl)
+          · -- deleted
+            simp only [if_true, pure, Except.pure] at h
+            cases hd : s1.handleDeleted (fileKey p) with
+            | error e => simp [hd] at h
+            | ok s2 =>
+              simp only [hd, Option.some.injEq, reduceCtorEq, if_false, Except.ok.injEq] at h
+              subst h
+              exact handleDeleted_complete s1 s2 (fileKey p) hkf hs1 hd
 
 /-- **propagation_complete** (a step whose own ingredients changed: recorded environment value,
 glob matches, interrupted run).  After `mark_step_pending(k)` the step is not SUCCEEDED and every
 node downstream of it is invalidated. -/
 theorem propagation_complete_step (s s' : KState) (k : Key) (hk : k.kind = .step) (hs : Sound s)
     (h : s.markStepPending k = .ok s') :
-    s'.sstateOf k ≠ some .succeeded ∧ ∀ x, Downstream s.deps k x → Invalidated s' x := by
-  have hs' := sound_markStepPending s s' k hs h
+    Sound s' ∧ s'.sstateOf k ≠ some .succeeded ∧ ∀ x, Downstream s.deps k x → Invalidated s' x := by
+  have hs' : Sound s' := soundBut_markStepPending s s' k hs h
   have hdeps : s'.deps = s.deps := markStepPending_deps s.fuel s s' k h
   have hnd := markStepPending_notDone s.fuel s s' k h
   have hk_ns : s'.sstateOf k ≠ some .succeeded := by
     intro hsucc
     rcases hnd _ hsucc with h1 | h1 | h1 <;> cases h1
-  refine ⟨hk_ns, ?_⟩
+  refine ⟨hs', hk_ns, ?_⟩
   rw [← hdeps]
-  refine downstream_invalidated s' k hs' ?_
-  intro d hd hsrc
-  rcases hs'.kinds d hd with ⟨hsf, _⟩ | ⟨_, hsf⟩
-  · rw [hsrc, hk] at hsf; cases hsf
-  · refine ⟨fun hx => (by rw [hsf] at hx; cases hx), fun _ => ⟨fun hb => ?_, hs'.outputs d hd (hsrc ▸ hk)⟩⟩
-    refine hs'.noOrphan d ⟨hd, hsf, hb, hsrc ▸ hk_ns, ?_, ?_⟩
-    · intro hr; exact (hs'.quiet _ _ hr).1 rfl
-    · intro hc; exact (hs'.quiet _ _ hc).2 rfl
+  exact downstream_invalidated s' k hs' (step_base s' k hk hs' hk_ns)
 
-/-- `handle_updated_file` of a CONFIRMED file is exactly the marking of its consumers, so
-`propagation_complete` applies to an EXTERNAL update of a static input. -/
+/-- `handle_updated_file` of a CONFIRMED file is exactly the marking of its consumers. -/
 theorem handleUpdated_confirmed (s : KState) (f : Key) (h : s.fstateOf f = some .confirmed) :
     s.handleUpdated f = s.markConsumersPending f := by
   unfold KState.handleUpdated KState.fileState?
@@ -224,7 +399,7 @@ theorem rescanEnv_propagation_complete (s s' : KState) (cfg : KConfig) (hs : Sou
       s'.sstateOf n.key ≠ some .succeeded ∧ ∀ x, Downstream s.deps n.key x → Invalidated s' x := by
   unfold KState.rescanEnvVars at h
   have hs' : Sound s' :=
-    foldlM_keeps Sound _ _ (fun b a b' _ hb hr => sound_markStepPending b b' a.key hb hr) s s' hs h
+    foldlM_keeps Sound _ _ (fun b a b' _ hb hr => soundBut_markStepPending b b' a.key hb hr) s s' hs h
   have hdeps : s'.deps = s.deps :=
     foldlM_keeps (fun b => b.deps = s.deps) _ _
       (fun b a b' _ hb hr => (markStepPending_deps b.fuel b b' a.key hr).trans hb) s s' rfl h
@@ -246,14 +421,7 @@ theorem rescanEnv_propagation_complete (s s' : KState) (cfg : KConfig) (hs : Sou
     rcases hnd _ hsucc with h1 | h1 | h1 <;> cases h1
   refine ⟨hk_ns, ?_⟩
   rw [← hdeps]
-  refine downstream_invalidated s' n.key hs' ?_
-  intro d hd hsrc
-  rcases hs'.kinds d hd with ⟨hsf, _⟩ | ⟨_, hsf⟩
-  · rw [hsrc, hk] at hsf; cases hsf
-  · refine ⟨fun hx => (by rw [hsf] at hx; cases hx), fun _ => ⟨fun hb => ?_, hs'.outputs d hd (hsrc ▸ hk)⟩⟩
-    refine hs'.noOrphan d ⟨hd, hsf, hb, hsrc ▸ hk_ns, ?_, ?_⟩
-    · intro hr; exact (hs'.quiet _ _ hr).1 rfl
-    · intro hc; exact (hs'.quiet _ _ hc).2 rfl
+  exact downstream_invalidated s' n.key hs' (step_base s' n.key hk hs' hk_ns)
 
 /-! ## 2. The skip decision of the executor -/
 
